@@ -25,7 +25,7 @@ CLAIMED = {
    technique="TLA+ denotational oracle evaluated by TLC on recorded membership bits (trace validation) of TLC-generated expressions", ref="5 C05"),
  "C01": dict(
    text="Every row returned by the sampling methods of TLC-generated domain expressions (interior and boundary; domain-level random/grid with n and density; RandomUniform/Grid/Gaussian/LHS/adaptive/filtered samplers; parameter batches) is recorded with the parameter row it is paired with and TLC checks it against the denotation of Geometry.tla (closed set resp. topological boundary up to 2/256, filter satisfied); calls run under a watchdog, a hang or an exception on a positive-measure expression is a violation.",
-   note="Trusted: TLC, vh/universe.py. Same bounded universe as C05; positive measure is decided by TLC on a 15x15 lattice (>= 5% of the window), expressions below that are not judged. Known findings: translate_bbox_per_row, bool_bd_shared_piece, bool_bd_empty_operand.",
+   note="Trusted: TLC, vh/universe.py. Same bounded universe as C05; positive measure is decided by TLC on a 15x15 lattice (>= 5% of the window), expressions below that are not judged. Whether a call is judgeable is decided by TLC on a lattice over all space variables (enough of the set, and a tenth of it passes the filter). Calls run under a CPU-time watchdog. Known findings: translate_bbox_per_row (three call sites), bool_bd_shared_piece, bool_bd_empty_operand, bool_empty_operand.",
    technique="TLC trace validation of recorded samples against the TLA+ denotation; expressions generated by TLC", ref="5 C01"),
  "C10": dict(
    text="Geometry.tla computes the exact measure of every expression whose measure the property fixes as (a + b*pi)/den in integer arithmetic (primitives and boundaries for every parameter row and vertex orientation, verified-disjoint unions, verified-contained cuts, independent products, translations, rotations); TLC compares the recorded volume() per row, the user-set override and the number of points returned by density sampling (exact ceil(d*vol) for non-rejection shapes, at most that for grids).",
@@ -33,7 +33,7 @@ CLAIMED = {
    technique="exact rational+pi measure in TLA+, TLC trace validation of recorded volumes and counts", ref="5 C10"),
  "C18": dict(
    text="For every TLC-generated expression and batch of parameter rows the recorded bounding_box (outward rounded) must contain every lattice point of the set Geometry.tla denotes at each row, be tight (equal to the exact box) for primitives at a single row, have the documented flat shape, and the NormalizationLayer built from it must map the domain's lattice points into [-1,1]^d; all judged by TLC.",
-   note="Trusted: TLC, vh/universe.py. Enclosure judged on a 19x19(x5) lattice with 3/256 tolerance; boundaries are judged against the closed domain they bound; Point domains (measure zero, padded box) are not judged. Known finding: translate_bbox_per_row (shape pinned by an existing test).",
+   note="Trusted: TLC, vh/universe.py. Enclosure judged on a 19x19(x5) lattice with 3/256 tolerance; boundaries are judged against the closed domain they bound; Point domains (measure zero, padded box) are not judged. Known findings: translate_bbox_per_row (shape pinned by an existing test), dep_product_box_estimate (documented random estimate of dependent products).",
    technique="TLC trace validation of recorded boxes against the TLA+ denotation (enclosure, tightness, normalization)", ref="5 C18"),
  "C17": dict(
    text="For every parameter-dependent expression TLC generates and every non-empty subset of its free variables, D(**values) is built on the real domain; TLC checks that its membership bits equal the denotation of the ORIGINAL expression at (values + each point's remaining parameter row), that volume and bounding box agree with the original evaluated at the joint parameters, that samples lie in the denoted set, that necessary_variables equals FreeVars (before) and FreeVars minus the bound names (after), and that the original is unchanged. Geometry.tla additionally defines PE(e,b) and FreeVars and TLC checks In(PE(e,b)) = In(e, +b) on the model.",
@@ -62,7 +62,7 @@ CLAIMED = {
    technique="TLA+ observation laws (model-checked for closure) + exhaustive presentation enumeration by TLC + TLC trace validation", ref="5 C08"),
  "C09": dict(
    text="DeepONet.tla states the contraction law Out[i][j][c] = sum_k B[i][c][k] T[j][c][k] on OBSERVED branch/trunk features, functional consistency of the features across batch compositions and branch-input forms, the fix_input history, and fast == plain (outputs, first and second input derivatives, parameter gradients). Integer networks make every quantity an exact integer; TLC enumerates 48 configurations x 7 batches and decides every recorded trace.",
-   note="Trusted: TLC; integer weights -2..2 with Identity/Square activations in float64 (exact). Bounded: output dim <= 2, <= 3 neurons per component, hidden <= (3,2), 1-3 functions x 1-3 locations. The FunctionSet form of the branch input is not driven.",
+   note="Trusted: TLC; integer weights -2..2 with Identity/Square activations in float64 (exact). Bounded: output dim <= 2, <= 3 neurons per component, hidden <= (3,2), 1-3 functions x 1-3 locations. Branch input as tensor, Points, callable, FunctionSet and sum of FunctionSets; activation lists; parameter gradients of derivative losses; same-object history without gradient tracking. The training-time function-set machine is checked in C04/C14 (CondExt.tla).",
    technique="TLA+ laws on observed integer features + TLC trace validation; configurations enumerated by TLC", ref="5 C09"),
  "C20": dict(
    text="Fourier.tla defines circular shifts and grid refinement as index maps on recorded fields and the laws layer(Shift(u,s)) = Shift(layer(u),s), coarse/fine agreement at shared nodes for band-limited input, and input immutability; MC_Fourier model-checks that the layer's mode padding/truncation bookkeeping is a diagonal frequency map for all spectrum lengths and mode counts. TLC enumerates 1-D and 2-D layer / FNO configurations; real layers run on random fields and every recorded field pair is decided by TLC in fixed point.",
@@ -70,11 +70,11 @@ CLAIMED = {
    technique="TLA+ index-map laws on recorded fixed-point fields (TLC trace validation) + TLC model check of the mode bookkeeping", ref="5 C20"),
  "C04": dict(
    text="Conditions.tla states, in an exact integer universe (affine integer models, integer sample points, affine data functions), what the residual must receive by name row by row (coordinates, model outputs, parameter, data functions at the same rows, left/right values for periodic conditions) and the documented reduction (mean of squared residual summed over components / plain mean). TLC enumerates 624 single-condition scenarios over kinds, residual families, space / model / signature orders, static or not, n; real conditions are built with recording residuals and TLC validates the recorded arguments and the loss (as an exact rational) after every evaluation.",
-   note="Trusted: TLC; recording residual functions generated from the scenario; float64 affine models. Covered kinds: PINN, mean/Deep-Ritz, periodic. Data conditions are covered in C16; Integro / HPM / DeepONet conditions are not driven.",
+   note="Trusted: TLC; recording residual functions generated from the scenario; float64 affine models. Covered kinds: PINN, mean/Deep-Ritz, periodic (Conditions.tla) and PIDeepONet, DeepONet data, integro, Deep-Ritz, parameter conditions (CondExt.tla, integer DeepONets whose output table is observed by a direct call). Data-loader aggregation is covered in C16; HPM and variational conditions are not driven.",
    technique="TLA+ evaluation semantics in an exact integer universe + TLC trace validation of exhaustively enumerated scenarios", ref="5 C04"),
  "C14": dict(
    text="MC_Cond model-checks the dictionary handling (copy vs in-place) against isolation for all construct/evaluate interleavings of 3 conditions; TLC generates histories of constructing and evaluating up to three real conditions that share user dictionaries (static and non-static samplers, periodic left/right data) and the trace monitor checks after every step that each condition received its data functions on ITS OWN points, that the user dictionaries still hold the user's function objects, and that static conditions repeat their loss.",
-   note="Trusted: TLC; as C04. Histories of 6 operations over 6 candidate conditions and 2 shared dictionaries (-simulate, 400 quick / 5000 thorough).",
+   note="Trusted: TLC; as C04. Histories of 7 operations over 14 candidate conditions sharing 2 dictionaries, 3 sampler objects (static / non-static / resampling) and a model object, with the train-start event; plus histories of 6 DeepONet conditions sharing 2 networks and 3 function sets under the Solver's iteration numbers (MC_FuncSet model-checks the design; -simulate, 400+250 quick / 5000+4000 thorough).",
    technique="TLA+ model checking of shared-object interference + TLC-generated histories replayed into the code + stepwise TLC trace validation", ref="5 C14"),
  "C07": dict(
    text="Training.tla is the reference optimisation loop in exact rational arithmetic (weighted sum of condition losses, SGD with momentum on every learnable incl. inverse parameters and ascending adaptive point weights, StepLR with step frequency, validation as a stutter on learnable state). TLC model-checks the loop's invariants, enumerates configurations whose reference trajectory fits the 32-bit budget, and the trace monitor steps the log of real Solver + Trainer runs (which condition with which iteration index; every learnable and the learning rate after each batch and around validation) against the reference, bit for bit.",
